@@ -37,7 +37,7 @@ ASSUMPTIONS = [
   'exceptions are injected at callback boundaries of module bodies, not between two bytecodes of flax itself',
   'all arithmetic is small integers in float32, so byte comparison is exact however XLA fuses',
 ]
-PROBES = ['fault_in_setup_or_body', 'write_outside_filter_raises', 'write_inside_filter_ok', 'repeat_checked', 'memo_hit_after_fault', 'frozen_returns', 'bind_unbind', 'core_api', 'observe_capture', 'observe_strip_sow', 'observe_no_perturb_col', 'collections_rule_checked', 'inner_module_attr', 'gc_event', 'context_intercept', 'context_named_call_on', 'context_named_call_off', 'context_tabulate', 'concurrent_interleaved', 'inner_from_bound_model', 'inner_below_unbound_container', 'route_nn_init', 'route_nn_apply', 'route_method_str', 'route_method_fn', 'filter_set_reused']
+PROBES = ['route_twice', 'late_collection_created_in_second_call', 'fault_in_setup_or_body', 'write_outside_filter_raises', 'write_inside_filter_ok', 'repeat_checked', 'memo_hit_after_fault', 'frozen_returns', 'bind_unbind', 'core_api', 'observe_capture', 'observe_strip_sow', 'observe_no_perturb_col', 'collections_rule_checked', 'inner_module_attr', 'gc_event', 'context_intercept', 'context_named_call_on', 'context_named_call_off', 'context_tabulate', 'concurrent_interleaved', 'inner_from_bound_model', 'inner_below_unbound_container', 'route_nn_init', 'route_nn_apply', 'route_method_str', 'route_method_fn', 'filter_set_reused']
 
 errors = None
 
@@ -105,6 +105,10 @@ def generate(rs, tier):
         op['fault'] = {'at': g.randrange(64)}
       elif f < 0.4:
         op['write'] = {'col': g.choice(['stats', 'cache', 'aux', 'batch_stats']), 'name': 'wx'}
+      elif f < 0.52:
+        # nn.apply(fn, module) with a function that calls the SAME bound module twice; a collection first comes into
+        # being during the second call
+        op['twice'] = True
       ops.append(op)
     elif r < 0.65:
       ops.append(dict(base, op='bind', mutable=gen_filter(g)))
@@ -279,6 +283,49 @@ class LWorld:
       raise Violation('inputs-changed', f'op {oi} {what}: the module object, variables, rngs or arguments differ after the call ({out[0]}): {_diff(before, after)}')
     return out
 
+  def twice(self, oi, op, use, v, x, rngs, F, rF, touched):
+    """One apply in which the function handed to nn.apply calls the same bound module twice; the second call creates a
+    variable in a collection ('late') that did not exist before: it must be returned like any other matching one."""
+    res = self.res
+
+    def two_calls(mod, xx):
+      P.CTL.phase = 0
+      mod(xx)
+      P.CTL.phase = 1
+      try:
+        return mod(xx)
+      finally:
+        P.CTL.phase = 0
+
+    def one_call(mod, xx):
+      P.CTL.phase = 1
+      try:
+        return mod(xx)
+      finally:
+        P.CTL.phase = 0
+
+    out = self.guarded(oi, 'apply(twice)', lambda: nn.apply(two_calls, use, mutable=rF)(v, x, rngs=rngs))
+    if out[0] != 'ok':
+      raise Violation('unexpected-exception', f'op {oi}: nn.apply of a function calling the module twice (mutable={F!r}) raised {type(out[1]).__name__}: {out[1]}')
+    res.probe('route_twice')
+    if F is False:
+      self.log.add(oi, 'twice', 'immutable')
+      return
+    y, mut = out[1]
+    self.check_returned_type(oi, mut)
+    want = sorted(c for c in (set(v.keys()) | touched) if in_filter(F, c))
+    got = sorted(mut.keys())
+    if got != want:
+      raise Violation('returned-collections-wrong', f'op {oi}: nn.apply(two calls, mutable={F!r}) returned collections {got}, every existing collection matching the filter is {want}')
+    if 'late' in want:
+      res.probe('late_collection_created_in_second_call')
+      if float(np.asarray(mut['late']['n'])) != 1.0:
+        raise Violation('returned-collections-wrong', f"op {oi}: the variable created in the second call came back as {mut['late']['n']!r}, it was written once")
+      ref = self.guarded(oi, 'apply(once, late)', lambda: nn.apply(one_call, use, mutable=rF)(v, x, rngs=rngs))
+      if ref[0] != 'ok' or sorted(ref[1][1].keys()) != want:
+        raise Violation('returned-collections-wrong', f'op {oi}: the same writes in a single call return {sorted(ref[1][1].keys()) if ref[0] == "ok" else ref[1]!r}, expected {want}')
+    self.log.add(oi, 'twice', got)
+
   def memo_check(self, oi, key, value, what):
     if key in self.memo:
       if self.memo[key] != value:
@@ -357,6 +404,12 @@ class LWorld:
         wsp = dict(spec, body=spec['body'] + [dict(i='write', col=op['write']['col'], name=op['write']['name'])])
         use = P.make(wsp, inner=m.inner)
         touched.add(op['write']['col'])
+      if op.get('twice') and spec['style'] == 'compact':  # (setup-style modules cannot declare variables in __call__)
+        use = P.make(dict(spec, body=spec['body'] + [dict(i='late', col='late', name='n')]), inner=m.inner)
+        if in_filter(F, 'late'):
+          touched.add('late')
+        self.twice(oi, op, use, v, x, rngs, F, rF, touched)
+        return
       call = lambda mod, xx: mod(xx)  # noqa: E731
       routes = {
         'apply': lambda: use.apply(v, x, rngs=rngs, mutable=rF),
